@@ -1,20 +1,32 @@
-//! Model of the tokio surface xs uses: array-backed channels with tokio's documented
-//! semantics, `spawn` capturing the future in the scheduler's task table.
+//! Model of the tokio surface xs uses: channels with tokio's documented semantics over
+//! static storage pools (see env::pool), `spawn` capturing the future in the scheduler's
+//! task table.
 #![allow(dead_code)]
 use super::nd;
+use super::pool::{Pooled, QCAP};
 use super::sched::{self, Yield};
 use super::trace::{self, Ev};
-use core::cell::RefCell;
 use core::future::Future;
+use core::marker::PhantomData;
 use core::pin::Pin;
 use core::task::{Context, Poll};
-use std::rc::Rc;
 
 pub use ::tokio::io;
 
 pub struct JoinHandle(pub usize);
 
 pub fn spawn<F: Future<Output = ()> + 'static>(f: F) -> JoinHandle {
+    if sched::inline() {
+        // see env::sched INLINE: the task lives on this stack frame while the hook drives it
+        let mut p = core::pin::pin!(f);
+        unsafe {
+            if let Some(h) = sched::TASK_HOOK {
+                let d: Pin<&mut dyn Future<Output = ()>> = p.as_mut();
+                h(d);
+            }
+        }
+        return JoinHandle(usize::MAX);
+    }
     JoinHandle(sched::spawn_future(Box::pin(f)))
 }
 
@@ -48,42 +60,6 @@ pub mod time {
 pub mod sync {
     pub mod mpsc {
         use super::super::*;
-        pub const QCAP: usize = 8;
-
-        pub struct Chan<T> {
-            buf: [Option<T>; QCAP],
-            head: usize,
-            len: usize,
-            cap: usize,
-            senders: usize,
-            rx_alive: bool,
-        }
-        impl<T> Chan<T> {
-            fn new(cap: usize) -> Self {
-                Chan {
-                    buf: [None, None, None, None, None, None, None, None],
-                    head: 0,
-                    len: 0,
-                    cap,
-                    senders: 1,
-                    rx_alive: true,
-                }
-            }
-            fn push(&mut self, v: T) {
-                let i = (self.head + self.len) % QCAP;
-                self.buf[i] = Some(v);
-                self.len += 1;
-            }
-            fn pop(&mut self) -> Option<T> {
-                if self.len == 0 {
-                    return None;
-                }
-                let v = self.buf[self.head].take();
-                self.head = (self.head + 1) % QCAP;
-                self.len -= 1;
-                v
-            }
-        }
 
         pub mod error {
             #[derive(Debug)]
@@ -97,96 +73,117 @@ pub mod sync {
         }
         pub use error::SendError;
 
-        pub struct Sender<T> {
-            ch: Rc<RefCell<Chan<T>>>,
+        pub struct Sender<T: Pooled> {
+            ix: usize,
+            _p: PhantomData<T>,
         }
-        pub struct Receiver<T> {
-            ch: Rc<RefCell<Chan<T>>>,
+        pub struct UnboundedSender<T: Pooled> {
+            ix: usize,
+            _p: PhantomData<T>,
         }
-        pub struct UnboundedSender<T> {
-            ch: Rc<RefCell<Chan<T>>>,
+        pub struct Receiver<T: Pooled> {
+            ix: usize,
+            /// harness-side extra handle (model_clone): does not close the queue on drop
+            shadow: bool,
+            _p: PhantomData<T>,
         }
         pub type UnboundedReceiver<T> = Receiver<T>;
 
+        fn mk<T: Pooled>(cap: usize) -> usize {
+            let p = &mut T::pool().mpsc;
+            let ix = p.alloc();
+            let q = p.at(ix);
+            q.cap = if cap < QCAP { cap } else { QCAP };
+            q.senders = 1;
+            q.receivers = 1;
+            q.rx_alive = true;
+            ix
+        }
         /// bounded channel; the model holds at most QCAP items whatever `cap` says
         /// (a producer that would need more is a cut path, see `blocking_send`).
-        pub fn channel<T>(cap: usize) -> (Sender<T>, Receiver<T>) {
-            let ch = Rc::new(RefCell::new(Chan::new(if cap < QCAP { cap } else { QCAP })));
-            (Sender { ch: ch.clone() }, Receiver { ch })
+        pub fn channel<T: Pooled>(cap: usize) -> (Sender<T>, Receiver<T>) {
+            let ix = mk::<T>(cap);
+            (Sender { ix, _p: PhantomData }, Receiver { ix, shadow: false, _p: PhantomData })
         }
-        pub fn unbounded_channel<T>() -> (UnboundedSender<T>, Receiver<T>) {
-            let ch = Rc::new(RefCell::new(Chan::new(QCAP)));
-            (UnboundedSender { ch: ch.clone() }, Receiver { ch })
+        pub fn unbounded_channel<T: Pooled>() -> (UnboundedSender<T>, Receiver<T>) {
+            let ix = mk::<T>(QCAP);
+            (UnboundedSender { ix, _p: PhantomData }, Receiver { ix, shadow: false, _p: PhantomData })
         }
-        impl<T> Clone for UnboundedSender<T> {
+
+        impl<T: Pooled> Clone for Sender<T> {
             fn clone(&self) -> Self {
-                self.ch.borrow_mut().senders += 1;
-                UnboundedSender { ch: self.ch.clone() }
+                T::pool().mpsc.at(self.ix).senders += 1;
+                Sender { ix: self.ix, _p: PhantomData }
             }
         }
-        impl<T> Drop for UnboundedSender<T> {
+        impl<T: Pooled> Drop for Sender<T> {
             fn drop(&mut self) {
-                self.ch.borrow_mut().senders -= 1;
+                let q = T::pool().mpsc.at(self.ix);
+                // (native runs reset the pools between scenarios; stale handles must not underflow)
+                if q.senders > 0 {
+                    q.senders -= 1;
+                }
             }
         }
-        impl<T> UnboundedSender<T> {
+        impl<T: Pooled> Clone for UnboundedSender<T> {
+            fn clone(&self) -> Self {
+                T::pool().mpsc.at(self.ix).senders += 1;
+                UnboundedSender { ix: self.ix, _p: PhantomData }
+            }
+        }
+        impl<T: Pooled> Drop for UnboundedSender<T> {
+            fn drop(&mut self) {
+                let q = T::pool().mpsc.at(self.ix);
+                // (native runs reset the pools between scenarios; stale handles must not underflow)
+                if q.senders > 0 {
+                    q.senders -= 1;
+                }
+            }
+        }
+        impl<T: Pooled> Drop for Receiver<T> {
+            fn drop(&mut self) {
+                if !self.shadow {
+                    T::pool().mpsc.at(self.ix).rx_alive = false;
+                }
+            }
+        }
+        impl<T: Pooled> UnboundedSender<T> {
             pub fn send(&self, v: T) -> Result<(), SendError<T>> {
-                let mut ch = self.ch.borrow_mut();
-                if !ch.rx_alive {
+                let q = T::pool().mpsc.at(self.ix);
+                if !q.rx_alive {
                     return Err(SendError(v));
                 }
-                if ch.len >= QCAP {
-                    drop(ch);
+                if q.len >= QCAP {
                     nd::bound_exceeded("unbounded queue longer than the model holds");
                     return Err(SendError(v));
                 }
-                ch.push(v);
+                q.push(v);
                 Ok(())
             }
         }
 
-        impl<T> Clone for Sender<T> {
-            fn clone(&self) -> Self {
-                self.ch.borrow_mut().senders += 1;
-                Sender { ch: self.ch.clone() }
-            }
-        }
-        impl<T> Drop for Sender<T> {
-            fn drop(&mut self) {
-                self.ch.borrow_mut().senders -= 1;
-            }
-        }
-        impl<T> Drop for Receiver<T> {
-            fn drop(&mut self) {
-                // a model_clone'd receiver shares the queue: only the last one closes it
-                if Rc::strong_count(&self.ch) <= 1 + self.ch.borrow().senders {
-                    self.ch.borrow_mut().rx_alive = false;
-                }
-            }
-        }
-
-        pub struct SendFut<'a, T> {
+        pub struct SendFut<'a, T: Pooled> {
             s: &'a Sender<T>,
             v: Option<T>,
         }
-        impl<'a, T> Unpin for SendFut<'a, T> {}
-        impl<'a, T> Future for SendFut<'a, T> {
+        impl<'a, T: Pooled> Unpin for SendFut<'a, T> {}
+        impl<'a, T: Pooled> Future for SendFut<'a, T> {
             type Output = Result<(), SendError<T>>;
             fn poll(mut self: Pin<&mut Self>, _cx: &mut Context<'_>) -> Poll<Self::Output> {
                 let this = &mut *self;
-                let mut ch = this.s.ch.borrow_mut();
-                if !ch.rx_alive {
+                let q = T::pool().mpsc.at(this.s.ix);
+                if !q.rx_alive {
                     return Poll::Ready(Err(SendError(this.v.take().unwrap())));
                 }
-                if ch.len >= ch.cap {
+                if q.len >= q.cap {
                     return Poll::Pending;
                 }
-                ch.push(this.v.take().unwrap());
+                q.push(this.v.take().unwrap());
                 Poll::Ready(Ok(()))
             }
         }
 
-        impl<T> Sender<T> {
+        impl<T: Pooled> Sender<T> {
             /// bounded async send (pends while full)
             pub fn send(&self, v: T) -> SendFut<'_, T> {
                 SendFut { s: self, v: Some(v) }
@@ -194,62 +191,75 @@ pub mod sync {
             pub fn blocking_send(&self, v: T) -> Result<(), SendError<T>> {
                 sched::yield_point(Yield::BlockingSendBefore);
                 {
-                    let mut ch = self.ch.borrow_mut();
-                    if !ch.rx_alive {
+                    let q = T::pool().mpsc.at(self.ix);
+                    if !q.rx_alive {
                         return Err(SendError(v));
                     }
-                    if ch.len >= ch.cap {
-                        drop(ch);
+                    if q.len >= q.cap {
                         nd::bound_exceeded("blocking_send on a full queue");
                         return Err(SendError(v));
                     }
-                    ch.push(v);
+                    q.push(v);
                 }
                 sched::yield_point(Yield::BlockingSendAfter);
                 Ok(())
             }
             pub fn is_closed(&self) -> bool {
-                !self.ch.borrow().rx_alive
+                !T::pool().mpsc.at(self.ix).rx_alive
             }
         }
-        impl<T> Receiver<T> {
+
+        impl<T: Pooled> Receiver<T> {
             pub fn recv(&mut self) -> RecvFut<'_, T> {
                 RecvFut { r: self }
             }
             /// a parked thread is not simulated further: an empty queue ends the caller's
             /// `while let Some(..) = rx.blocking_recv()` loop (no xs code follows such loops)
             pub fn blocking_recv(&mut self) -> Option<T> {
-                self.ch.borrow_mut().pop()
+                T::pool().mpsc.at(self.ix).pop()
             }
             pub fn try_recv(&mut self) -> Result<T, ()> {
-                self.ch.borrow_mut().pop().ok_or(())
+                T::pool().mpsc.at(self.ix).pop().ok_or(())
+            }
+            /// harness-side: a handle on the (singleton) queue created by the real code
+            pub fn model_attach(ix: usize) -> Receiver<T> {
+                Receiver { ix, shadow: true, _p: PhantomData }
             }
             /// harness-side: a second handle on the same queue
             pub fn model_clone(&self) -> Receiver<T> {
-                Receiver { ch: self.ch.clone() }
+                Receiver { ix: self.ix, shadow: true, _p: PhantomData }
+            }
+            /// harness-side: the consumer thread is parked, not gone (an inline-run worker loop
+            /// returns when its queue is empty and drops its receiver; the real thread never does)
+            pub fn model_reopen(&self) {
+                T::pool().mpsc.at(self.ix).rx_alive = true;
+            }
+            pub fn model_senders(&self) -> usize {
+                T::pool().mpsc.at(self.ix).senders
             }
             pub fn model_len(&self) -> usize {
-                self.ch.borrow().len
+                T::pool().mpsc.at(self.ix).len
             }
+            /// every sender gone and nothing buffered
             pub fn model_closed(&self) -> bool {
-                let ch = self.ch.borrow();
-                ch.len == 0 && ch.senders == 0
+                let q = T::pool().mpsc.at(self.ix);
+                q.len == 0 && q.senders == 0
             }
             pub fn close(&mut self) {
-                self.ch.borrow_mut().rx_alive = false;
+                T::pool().mpsc.at(self.ix).rx_alive = false;
             }
         }
-        pub struct RecvFut<'a, T> {
+        pub struct RecvFut<'a, T: Pooled> {
             r: &'a mut Receiver<T>,
         }
-        impl<'a, T> Future for RecvFut<'a, T> {
+        impl<'a, T: Pooled> Future for RecvFut<'a, T> {
             type Output = Option<T>;
             fn poll(self: Pin<&mut Self>, _cx: &mut Context<'_>) -> Poll<Option<T>> {
-                let mut ch = self.r.ch.borrow_mut();
-                if let Some(v) = ch.pop() {
-                    return Poll::Ready(Some(v));
+                let q = T::pool().mpsc.at(self.r.ix);
+                if q.len > 0 {
+                    return Poll::Ready(q.pop());
                 }
-                if ch.senders == 0 {
+                if q.senders == 0 {
                     return Poll::Ready(None);
                 }
                 Poll::Pending
@@ -259,16 +269,13 @@ pub mod sync {
 
     pub mod oneshot {
         use super::super::*;
-        pub struct Inner<T> {
-            v: Option<T>,
-            tx_dropped: bool,
-            rx_dropped: bool,
+        pub struct Sender<T: Pooled> {
+            ix: usize,
+            _p: PhantomData<T>,
         }
-        pub struct Sender<T> {
-            ch: Rc<RefCell<Inner<T>>>,
-        }
-        pub struct Receiver<T> {
-            ch: Rc<RefCell<Inner<T>>>,
+        pub struct Receiver<T: Pooled> {
+            ix: usize,
+            _p: PhantomData<T>,
         }
         pub mod error {
             #[derive(Debug, PartialEq)]
@@ -280,43 +287,47 @@ pub mod sync {
             }
             impl std::error::Error for RecvError {}
         }
-        pub fn channel<T>() -> (Sender<T>, Receiver<T>) {
-            let ch = Rc::new(RefCell::new(Inner { v: None, tx_dropped: false, rx_dropped: false }));
-            (Sender { ch: ch.clone() }, Receiver { ch })
+        pub fn channel<T: Pooled>() -> (Sender<T>, Receiver<T>) {
+            let p = &mut T::pool().oneshot;
+            let ix = p.alloc();
+            let q = p.at(ix);
+            q.rx_alive = true;
+            q.tx_dropped = false;
+            (Sender { ix, _p: PhantomData }, Receiver { ix, _p: PhantomData })
         }
-        impl<T> core::fmt::Debug for Sender<T> {
+        impl<T: Pooled> core::fmt::Debug for Sender<T> {
             fn fmt(&self, f: &mut core::fmt::Formatter<'_>) -> core::fmt::Result {
                 f.write_str("oneshot::Sender")
             }
         }
-        impl<T> Sender<T> {
+        impl<T: Pooled> Sender<T> {
             pub fn send(self, v: T) -> Result<(), T> {
-                let mut ch = self.ch.borrow_mut();
-                if ch.rx_dropped {
+                let q = T::pool().oneshot.at(self.ix);
+                if !q.rx_alive {
                     return Err(v);
                 }
-                ch.v = Some(v);
+                q.push(v);
                 Ok(())
             }
         }
-        impl<T> Drop for Sender<T> {
+        impl<T: Pooled> Drop for Sender<T> {
             fn drop(&mut self) {
-                self.ch.borrow_mut().tx_dropped = true;
+                T::pool().oneshot.at(self.ix).tx_dropped = true;
             }
         }
-        impl<T> Drop for Receiver<T> {
+        impl<T: Pooled> Drop for Receiver<T> {
             fn drop(&mut self) {
-                self.ch.borrow_mut().rx_dropped = true;
+                T::pool().oneshot.at(self.ix).rx_alive = false;
             }
         }
-        impl<T> Future for Receiver<T> {
+        impl<T: Pooled> Future for Receiver<T> {
             type Output = Result<T, error::RecvError>;
             fn poll(self: Pin<&mut Self>, _cx: &mut Context<'_>) -> Poll<Self::Output> {
-                let mut ch = self.ch.borrow_mut();
-                if let Some(v) = ch.v.take() {
-                    return Poll::Ready(Ok(v));
+                let q = T::pool().oneshot.at(self.ix);
+                if q.len > 0 {
+                    return Poll::Ready(Ok(q.pop().unwrap()));
                 }
-                if ch.tx_dropped {
+                if q.tx_dropped {
                     return Poll::Ready(Err(error::RecvError(())));
                 }
                 Poll::Pending
@@ -327,19 +338,14 @@ pub mod sync {
     pub mod broadcast {
         use super::super::*;
         pub const BCAP: usize = 4;
-        pub struct Inner<T> {
-            buf: [Option<T>; BCAP],
-            cap: usize,
-            /// total number of messages ever sent
-            tail: u64,
-            receivers: usize,
+        pub struct Sender<T: Pooled> {
+            ix: usize,
+            _p: PhantomData<T>,
         }
-        pub struct Sender<T> {
-            ch: Rc<RefCell<Inner<T>>>,
-        }
-        pub struct Receiver<T> {
-            ch: Rc<RefCell<Inner<T>>>,
+        pub struct Receiver<T: Pooled> {
+            ix: usize,
             next: u64,
+            _p: PhantomData<T>,
         }
         pub mod error {
             #[derive(Debug, PartialEq, Clone)]
@@ -352,88 +358,107 @@ pub mod sync {
         }
         /// capacity as requested, but at most BCAP (the model's ring); lag semantics are
         /// capacity-independent. xs's real 1024 is therefore modelled by BCAP.
-        pub fn channel<T: Clone>(cap: usize) -> (Sender<T>, Receiver<T>) {
-            let cap = if cap < BCAP { cap } else { BCAP };
-            let ch = Rc::new(RefCell::new(Inner {
-                buf: [None, None, None, None],
-                cap,
-                tail: 0,
-                receivers: 1,
-            }));
-            (Sender { ch: ch.clone() }, Receiver { ch, next: 0 })
+        pub fn channel<T: Pooled + Clone>(cap: usize) -> (Sender<T>, Receiver<T>) {
+            let p = &mut T::pool().bcast;
+            let ix = p.alloc();
+            let q = p.at(ix);
+            q.cap = if cap < BCAP { cap } else { BCAP };
+            q.tail = 0;
+            q.receivers = 1;
+            q.cursor = 0;
+            (Sender { ix, _p: PhantomData }, Receiver { ix, next: 0, _p: PhantomData })
         }
-        impl<T> Clone for Sender<T> {
+        impl<T: Pooled> Clone for Sender<T> {
             fn clone(&self) -> Self {
-                Sender { ch: self.ch.clone() }
+                Sender { ix: self.ix, _p: PhantomData }
             }
         }
-        impl<T: Clone + BroadcastId> Sender<T> {
+        impl<T: Pooled + Clone + BroadcastId> Sender<T> {
             pub fn send(&self, v: T) -> Result<usize, error::SendError<T>> {
                 let id = v.bid();
-                let n;
-                {
-                    let mut ch = self.ch.borrow_mut();
-                    if ch.receivers == 0 {
-                        // tokio: send with no receivers is an error and the value is dropped
-                        drop(ch);
-                        trace::push(Ev::Broadcast { id });
-                        sched::yield_point(Yield::BroadcastSent);
-                        return Err(error::SendError(v));
-                    }
-                    let i = (ch.tail % (ch.cap as u64)) as usize;
-                    ch.buf[i] = Some(v);
-                    ch.tail += 1;
-                    n = ch.receivers;
+                let q = T::pool().bcast.at(self.ix);
+                if q.receivers == 0 {
+                    // tokio: send with no receivers is an error and the value is dropped
+                    trace::push(Ev::Broadcast { id });
+                    sched::yield_point(Yield::BroadcastSent);
+                    return Err(error::SendError(v));
                 }
+                let at = (q.tail % (q.cap as u64)) as usize;
+                let mut item = Some(v);
+                let mut i = 0;
+                while i < BCAP {
+                    if i == at {
+                        core::mem::forget(core::mem::replace(&mut q.buf[i], item.take()));
+                    }
+                    i += 1;
+                }
+                q.tail += 1;
+                let n = q.receivers;
                 trace::push(Ev::Broadcast { id });
                 sched::yield_point(Yield::BroadcastSent);
                 Ok(n)
             }
             pub fn subscribe(&self) -> Receiver<T> {
-                let mut ch = self.ch.borrow_mut();
-                ch.receivers += 1;
-                Receiver { ch: self.ch.clone(), next: ch.tail }
+                let q = T::pool().bcast.at(self.ix);
+                if !crate::env::pool::is_multi() && q.receivers >= 1 {
+                    nd::bound_exceeded("second live broadcast receiver in singleton mode");
+                }
+                q.receivers += 1;
+                q.cursor = q.tail;
+                Receiver { ix: self.ix, next: q.tail, _p: PhantomData }
             }
             pub fn receiver_count(&self) -> usize {
-                self.ch.borrow().receivers
+                T::pool().bcast.at(self.ix).receivers
             }
         }
-        impl<T> Drop for Receiver<T> {
+        impl<T: Pooled> Drop for Receiver<T> {
             fn drop(&mut self) {
-                self.ch.borrow_mut().receivers -= 1;
+                let q = T::pool().bcast.at(self.ix);
+                if q.receivers > 0 {
+                    q.receivers -= 1;
+                }
             }
         }
-        /// what the effect trace records about a broadcast payload
+        /// what the effect monitor records about a broadcast payload
         pub trait BroadcastId {
             fn bid(&self) -> u128;
         }
-        pub struct RecvFut<'a, T> {
+        pub struct RecvFut<'a, T: Pooled> {
             r: &'a mut Receiver<T>,
         }
-        impl<T: Clone> Receiver<T> {
+        impl<T: Pooled + Clone> Receiver<T> {
             pub fn recv(&mut self) -> RecvFut<'_, T> {
                 RecvFut { r: self }
             }
             pub fn model_try_recv(&mut self) -> Option<Result<T, error::RecvError>> {
-                let ch = self.ch.borrow();
-                let cap = ch.cap as u64;
-                if ch.tail > self.next + cap {
-                    let missed = ch.tail - cap - self.next;
-                    drop(ch);
-                    self.next += missed;
+                let multi = crate::env::pool::is_multi();
+                let q = T::pool().bcast.at(self.ix);
+                let cap = q.cap as u64;
+                let next = if multi { self.next } else { q.cursor };
+                if q.tail > next + cap {
+                    let missed = q.tail - cap - next;
+                    self.next = next + missed;
+                    q.cursor = next + missed;
                     return Some(Err(error::RecvError::Lagged(missed)));
                 }
-                if self.next < ch.tail {
-                    let i = (self.next % cap) as usize;
-                    let v = ch.buf[i].clone();
-                    drop(ch);
-                    self.next += 1;
-                    return Some(Ok(v.unwrap()));
+                if next < q.tail {
+                    let at = (next % cap) as usize;
+                    let mut out = None;
+                    let mut i = 0;
+                    while i < BCAP {
+                        if i == at {
+                            out = q.buf[i].clone();
+                        }
+                        i += 1;
+                    }
+                    self.next = next + 1;
+                    q.cursor = next + 1;
+                    return out.map(Ok);
                 }
                 None
             }
         }
-        impl<'a, T: Clone> Future for RecvFut<'a, T> {
+        impl<'a, T: Pooled + Clone> Future for RecvFut<'a, T> {
             type Output = Result<T, error::RecvError>;
             fn poll(self: Pin<&mut Self>, _cx: &mut Context<'_>) -> Poll<Self::Output> {
                 let this = self.get_mut();
